@@ -53,7 +53,7 @@ def cls(v):
     return type(v).__name__
 
 
-REQUIRED = (['law-pairs', 'law-triples', 'online:sort', 'online:join', 'online:select', 'online:issorted', 'online:mergesort',
+REQUIRED = (['online:mergesort-3+-inputs', 'online:sort-chunked-3+-chunks', 'online:sort-chunked-3+-chunks-reverse', 'law-pairs', 'law-triples', 'online:sort', 'online:join', 'online:select', 'online:issorted', 'online:mergesort',
              'nested-vs-flat'] + ['classpair:%s|%s' % (x, y) for x in CLASSES for y in CLASSES])
 
 
@@ -96,6 +96,15 @@ def cases(ctx):
             c['value2'] = rng.choice(pool + [rng.choice(flat)])
         if which in ('join', 'mergesort'):
             c['table2'] = [['k', 'b']] + [[rng.choice(pool), 's%d' % r] for r in range(rng.randint(0, 5))]
+        if which == 'mergesort':
+            # three and more inputs: the k-way merge has to keep ranking the remaining inputs by this ordering when one runs dry
+            c['more'] = [[['k', 'c%d' % j]] + [[rng.choice(pool), 'u%d.%d' % (j, r)] for r in range(rng.randint(0, 4))]
+                         for j in range(rng.choice([0, 0, 1, 2, 3]))]
+        if which == 'sort':
+            # chunked sorts (forward: heap merge, reverse: shortlist merge) must order by the same relation as the in-memory sort
+            c['buffersize'] = rng.choice([None, None, 1, 2, 3])
+            if c['buffersize'] is not None:
+                t.extend([rng.choice(pool), rng.choice(pool), 'x%d' % r] for r in range(rng.randint(0, 6)))
         if which == 'issorted':
             c['strict'] = rng.random() < 0.4
             if rng.random() < 0.35:
@@ -243,10 +252,15 @@ def _judge_online(case, ctx):
                 ok = all((util.model_cmp(a, b) >= 0) if reverse else (util.model_cmp(a, b) <= 0) for a, b in zip(ks, ks[1:]))
                 if not ok:
                     out.append({'kind': 'sort-output-not-ordered-under-model', 'observed': got})
+                if case.get('buffersize') is not None and len(got) - 1 > 2 * case['buffersize']:
+                    ctx.seen('online:sort-chunked-3+-chunks' + ('-reverse' if reverse else ''))
         elif which == 'mergesort':
             t2 = copy.deepcopy(case['table2'])
+            more = copy.deepcopy(case.get('more', []))
             mk = 'k'
-            got = util.attempt_rows(lambda: petl.mergesort(table, t2, key=mk, reverse=reverse))
+            if more:
+                ctx.seen('online:mergesort-3+-inputs')
+            got = util.attempt_rows(lambda: petl.mergesort(table, t2, *more, key=mk, reverse=reverse))
             if isinstance(got, util.Raised):
                 out.append({'kind': 'exception', 'detail': got.text, 'where': got.where})
             else:
